@@ -34,6 +34,11 @@ type Cache struct {
 	// to update aggregate diagostics incrementally.
 	aggregateData *concurrent.Map[string, []report.Aggregate]
 
+	// ignoreDirectives stores the inline ignore directives (row -> rule names) found in each file when it
+	// was last linted. Aggregate violations are reported from aggregateData alone, and need these to
+	// honour the ignore directives of the files they are reported in.
+	ignoreDirectives *concurrent.Map[string, map[string][]string]
+
 	// diagnosticsFile is a map of file URI to diagnostics for that file
 	diagnosticsFile *concurrent.Map[string, []types.Diagnostic]
 
@@ -63,6 +68,7 @@ func NewCache() *Cache {
 		ignoredFileContents:       concurrent.MapOf(make(map[string]string)),
 		modules:                   concurrent.MapOf(make(map[string]*ast.Module)),
 		aggregateData:             concurrent.MapOf(make(map[string][]report.Aggregate)),
+		ignoreDirectives:          concurrent.MapOf(make(map[string]map[string][]string)),
 		diagnosticsFile:           concurrent.MapOf(make(map[string][]types.Diagnostic)),
 		diagnosticsParseErrors:    concurrent.MapOf(make(map[string][]types.Diagnostic)),
 		builtinPositionsFile:      concurrent.MapOf(make(map[string]map[uint][]types.BuiltinPosition)),
@@ -147,6 +153,11 @@ func (c *Cache) Rename(oldKey, newKey string) {
 		c.aggregateData.Delete(oldKey)
 	}
 
+	if directives, ok := c.ignoreDirectives.Get(oldKey); ok {
+		c.ignoreDirectives.Set(newKey, directives)
+		c.ignoreDirectives.Delete(oldKey)
+	}
+
 	if diagnostics, ok := c.diagnosticsFile.Get(oldKey); ok {
 		c.diagnosticsFile.Set(newKey, diagnostics)
 		c.diagnosticsFile.Delete(oldKey)
@@ -224,6 +235,26 @@ func (c *Cache) GetFileAggregates(fileURIs ...string) map[string][]report.Aggreg
 	}
 
 	return allAggregates
+}
+
+// SetFileIgnoreDirectives sets the ignore directives for the provided URI only, from the
+// per-file directives of a report.
+func (c *Cache) SetFileIgnoreDirectives(fileURI string, data map[string]map[string][]string) {
+	c.ignoreDirectives.Set(fileURI, data[fileURI])
+}
+
+// SetIgnoreDirectives replaces the ignore directives of all files.
+func (c *Cache) SetIgnoreDirectives(data map[string]map[string][]string) {
+	c.ignoreDirectives.Clear()
+
+	for fileURI, directives := range data {
+		c.ignoreDirectives.Set(fileURI, directives)
+	}
+}
+
+// GetIgnoreDirectives returns the ignore directives of all files, keyed by file URI.
+func (c *Cache) GetIgnoreDirectives() map[string]map[string][]string {
+	return c.ignoreDirectives.Clone()
 }
 
 func (c *Cache) GetFileDiagnostics(uri string) ([]types.Diagnostic, bool) {
@@ -312,6 +343,7 @@ func (c *Cache) Delete(fileURI string) {
 	c.ignoredFileContents.Delete(fileURI)
 	c.modules.Delete(fileURI)
 	c.aggregateData.Delete(fileURI)
+	c.ignoreDirectives.Delete(fileURI)
 	c.diagnosticsFile.Delete(fileURI)
 	c.diagnosticsParseErrors.Delete(fileURI)
 	c.builtinPositionsFile.Delete(fileURI)
